@@ -201,6 +201,7 @@ def part_constants(ctx, rng, work, events, meta, quick):
     # a file that gives rp itself (legal: rp is a public constant and setupCylindricalGrid accepts it as keyword)
     c2 = get_constants(scenarios.write_constants(os.path.join(work, "c_rp.json"), rp=5.5))
     sources.append(("file with explicit rp", json.dumps(dict(scenarios.CONSTANTS, rp=5.5))))
+    sources.append(("file with zero-valued constants", json.dumps(dict(scenarios.CONSTANTS, eps=0.0, m=0, n=0, iotaVal=0.0, kN0=0.0, zMin=0.0))))
     nperm = 12 if quick else 120
     for name, text in sources:
         data = json.loads(text)
@@ -215,6 +216,11 @@ def part_constants(ctx, rng, work, events, meta, quick):
             events.append({"k": "const", "ok": False, "same": False, "err": "%s: %s" % (type(ex).__name__, ex)})
             meta.append({"part": "constants", "source": name, "order": "as written"})
             continue
+        # every literal of the file is the value of that constant (zeros included: a default must not replace a given 0)
+        lit = {k: v for k, v in data.items() if isinstance(v, (int, float)) and not isinstance(v, bool) and k in base}
+        bad = [k for k, v in lit.items() if base[k] != v]
+        events.append({"k": "const", "ok": True, "same": not bad})
+        meta.append({"part": "constants", "source": name, "order": "literals kept", "diff": bad})
         if "printed" in name:    # the printed file must reproduce the object it was printed from
             orig = const_values(c0 if name.startswith("defaults") else c1)
             events.append({"k": "const", "ok": True, "same": bool(orig == base)})
